@@ -501,3 +501,76 @@ func genStop(t *rapid.T) StopCase {
 func TestC06(t *testing.T) {
 	pbt.Run(t, pbt.Spec[StopCase]{Prop: "C06", Test: "TestC06", Engine: "osproc", Gen: genStop, Check: checkStop})
 }
+
+// ---------------------------------------------------------------- C02: the back-off in real seconds
+
+type BackoffCase struct {
+	Backoff  int `json:"backoff"` // configured backoff_seconds (0 and 1 both mean one second)
+	Restarts int `json:"restarts"`
+}
+
+func checkBackoff(c BackoffCase) pbt.Verdict {
+	var v pbt.Verdict
+	dir, err := os.MkdirTemp("", "verif-bo-")
+	if err != nil {
+		v.Skip = true
+		return v
+	}
+	defer os.RemoveAll(dir)
+	stamp := filepath.Join(dir, "starts")
+	y := fmt.Sprintf("version: \"0.5\"\nprocesses:\n  p:\n    command: 'date +%%s%%N >> %s; exit 1'\n    availability:\n      restart: on_failure\n      max_restarts: %d\n      backoff_seconds: %d\n", stamp, c.Restarts, c.Backoff)
+	cfg := filepath.Join(dir, "pc.yaml")
+	_ = os.WriteFile(cfg, []byte(y), 0o644)
+	lo := &loader.LoaderOptions{FileNames: []string{cfg}, IsInternalLoader: true}
+	lo.DisableDotenv(true)
+	prj, err := loader.Load(lo)
+	if err != nil {
+		v.Violations = append(v.Violations, "load: "+err.Error())
+		return v
+	}
+	r, err := app.NewProjectRunner((&app.ProjectOpts{}).WithProject(prj).WithIsTuiOn(true))
+	if err != nil {
+		v.Violations = append(v.Violations, "runner: "+err.Error())
+		return v
+	}
+	done := make(chan error, 1)
+	go func() { done <- r.Run() }()
+	min := c.Backoff
+	if min < 1 {
+		min = 1
+	}
+	select {
+	case <-done:
+	case <-time.After(time.Duration((c.Restarts+1)*(min+3)+10) * time.Second):
+		v.Skip = true
+		go r.ShutDownProject()
+		return v
+	}
+	b, _ := os.ReadFile(stamp)
+	var ts []int64
+	for _, f := range strings.Fields(string(b)) {
+		n, _ := strconv.ParseInt(f, 10, 64)
+		ts = append(ts, n)
+	}
+	if len(ts) != c.Restarts+1 {
+		v.Violations = append(v.Violations, fmt.Sprintf("on_failure with max_restarts %d: the command ran %d times, want %d", c.Restarts, len(ts), c.Restarts+1))
+		return v
+	}
+	for i := 1; i < len(ts); i++ {
+		// each start precedes its exit, so start-to-start is a lower bound for exit-to-relaunch
+		if gap := time.Duration(ts[i] - ts[i-1]); gap < time.Duration(min)*time.Second {
+			v.Violations = append(v.Violations, fmt.Sprintf("relaunch %d came %v after the previous launch, backoff_seconds=%d (minimum 1 s)", i, gap, c.Backoff))
+			return v
+		}
+	}
+	v.NonTrivial = c.Restarts >= 1
+	return v
+}
+
+func TestC02RealBackoff(t *testing.T) {
+	pbt.Run(t, pbt.Spec[BackoffCase]{Prop: "C02", Test: "TestC02RealBackoff", Engine: "osproc",
+		Gen: func(t *rapid.T) BackoffCase {
+			return BackoffCase{Backoff: pbt.Pick(t, []int{0, 1, 2}), Restarts: pbt.Range(t, 1, 2)}
+		},
+		Check: checkBackoff})
+}
